@@ -142,8 +142,11 @@ class RecordingMemmap:
     def __setitem__(self, key, value):
         k0 = key[0] if isinstance(key, tuple) else key
         rows = np.atleast_1d(np.arange(self._mm.shape[0])[k0]).tolist()
-        SCHED.mm_writes.append((SCHED.current, rows))
         self._mm[key] = value
+        # what each row holds right after the store (whole row, so partial-row stores are comparable too)
+        import zlib
+        digs = [zlib.crc32(np.ascontiguousarray(self._mm[r_]).tobytes()) for r_ in rows]
+        SCHED.mm_writes.append((SCHED.current, rows, digs))
 
     def __getitem__(self, key):
         return self._mm[key]
